@@ -231,7 +231,9 @@ func runC20(c *report.Ctx) {
 	// ---- (4) suspend / resume typestate ----------------------------------------------------------------------------
 	ruleSuspendResume(c)
 	ruleSuspendRefusesOnlyOnQuit(c)
+	ruleParkedHandlerOnlyWaits(c)
 	ruleQueueHeadroom(c)
+	ruleRemovalRoundProgress(c)
 	ruleCloseDBAlwaysDone(c)
 	ruleNotificationsQueued(c)
 	ruleImportRetryOverride(c)
